@@ -22,6 +22,7 @@ struct BoolPropCodec {
         enc.u8(val);
     }
     static void decode_one(Decoder &reader, T &val) {
+        reader.need(1);
         uint8_t v = reader.u8();
         if (v != 0 && v != 1) {
             throw parse_error("invalid bool encoding");
